@@ -236,7 +236,8 @@ for srcDirectory in inputMibs:
                                      'destination directory "%s": %s\r\n' % (os.path.join(srcDirectory, mibFile),
                                                                              dstDirectory, ex))
 
-                dstMibRevision = datetime.fromtimestamp(0)
+                # older than any source MIB, including those having no revision
+                dstMibRevision = datetime.min
 
             mibsRevisions[mibName] = dstMibRevision
 
